@@ -17,6 +17,7 @@ ASSUMPTIONS = [
     "'once' is per closing update received (streams do repeat CLOSED)",
     "in backtest mode a closing update for a market of which no earlier update was processed has no market object to close and is ignored by design; nothing is demanded for it",
     "70% World A backtests, 30% World B live sessions (real Flumine.run() loop under the simulated clock) for the closure callbacks of empty-filter strategies and the retention rule (removal only after more than 3600 simulated seconds closed, at the next close event)",
+    "live sessions: the closure worker (poll_market_closure) is a stub - after every processed close the harness marks orders_cleared/market_cleared on the market, so that the reset of these flags by data arriving again (incl. a repeated CLOSED update) is observable; the hour of retention is counted from the latest closing update of a market (own journal)",
     "about a third of the live sessions run a raw-data recorder strategy (DataStream, dict updates, closure from the marketDefinition of the raw datum)",
 ]
 COMPONENTS = common.COMPONENTS_A
